@@ -2,14 +2,16 @@ package main
 
 // Fact extractor for C13 (`C13.ed448_args_readonly`): the Lean model of ed448/ed448.go is a pure
 // function of the argument byte VALUES and returns fresh values.  That is faithful only if
-//   (1) no function of ed448/*.go writes through (assigns into, copies into, appends to, clears, takes
-//       an element address of) a parameter slice or a local alias of one — except the two internal
-//       helpers `newKeyFromSeed(privateKey, seed)` and `sign(signature, privateKey, message)`, whose
-//       FIRST parameter is an output buffer;
-//   (2) every call of those helpers passes a buffer freshly made in the caller (`x := make(…)`);
+//   (1) no EXPORTED function of ed448/*.go writes through (assigns into, copies into, appends to, clears,
+//       takes an element address of, or hands to a writing helper) a parameter slice or a local alias
+//       of one; an unexported helper may fill an output buffer, by `copy` only;
+//   (2) at EVERY call site of such a helper the argument bound to a written parameter is a buffer
+//       freshly made in the caller (`x := make(T, n)`, bound once);
 //   (3) every returned slice is freshly made in the function, a constant, or the result of a call of a
 //       function of this list — never a parameter, a re-slicing of one, or `append(parameter, …)`.
-// (argFactsOfDir of x448facts.go supplies (1); this file adds (2) and (3).)  go/ast only, syntactic.
+// The facts are stated by ROLE (exported / written parameter / call site), no function is named in the
+// theorem, so renaming a helper does not touch it.  (argFactsOfDir of x448facts.go supplies the direct
+// writes; this file adds exportedness, the call sites and the returns.)  go/ast only, syntactic.
 
 import (
 	"fmt"
@@ -28,12 +30,16 @@ func init() {
 	})
 }
 
-var ed448Helpers = map[string]bool{"newKeyFromSeed": true, "sign": true}
-
 type ed448Fn struct {
-	name        string
-	returns     []string // class of every returned expression
-	helperDests []string // class of the first argument of every call of a helper
+	name     string
+	short    string // function / method name without the receiver type
+	exported bool   // exported name, and (for methods) exported receiver type
+	params   []string
+	decl     *ast.FuncDecl
+	made     map[string]bool
+	pset     map[string]bool
+	returns  []string    // class of every returned expression
+	writes   [][2]string // (kind, target) of every write through a parameter
 }
 
 func ed448Classify(e ast.Expr, made, params map[string]bool) string {
@@ -81,7 +87,7 @@ func ed448Classify(e ast.Expr, made, params map[string]bool) string {
 	return "other"
 }
 
-func ed448FnFacts(dir string) ([]ed448Fn, error) {
+func ed448FnFacts(dir string) ([]*ed448Fn, error) {
 	fset := token.NewFileSet()
 	entries, err := os.ReadDir(dir)
 	if err != nil {
@@ -96,7 +102,7 @@ func ed448FnFacts(dir string) ([]ed448Fn, error) {
 		names = append(names, n)
 	}
 	sort.Strings(names)
-	var out []ed448Fn
+	var out []*ed448Fn
 	for _, n := range names {
 		src, err := os.ReadFile(filepath.Join(dir, n))
 		if err != nil {
@@ -115,7 +121,10 @@ func ed448FnFacts(dir string) ([]ed448Fn, error) {
 				continue
 			}
 			name := fd.Name.Name
+			short := name
+			exported := ast.IsExported(name)
 			params := map[string]bool{}
+			var ordered []string
 			add := func(fl *ast.FieldList) {
 				if fl == nil {
 					return
@@ -126,6 +135,13 @@ func ed448FnFacts(dir string) ([]ed448Fn, error) {
 					}
 				}
 			}
+			if fd.Type.Params != nil {
+				for _, fld := range fd.Type.Params.List {
+					for _, id := range fld.Names {
+						ordered = append(ordered, id.Name)
+					}
+				}
+			}
 			if fd.Recv != nil && len(fd.Recv.List) == 1 {
 				t := fd.Recv.List[0].Type
 				if st, ok := t.(*ast.StarExpr); ok {
@@ -133,6 +149,7 @@ func ed448FnFacts(dir string) ([]ed448Fn, error) {
 				}
 				if id, ok := t.(*ast.Ident); ok {
 					name = id.Name + "." + name
+					exported = exported && ast.IsExported(id.Name)
 				}
 			}
 			add(fd.Recv)
@@ -166,7 +183,7 @@ func ed448FnFacts(dir string) ([]ed448Fn, error) {
 					delete(made, v)
 				}
 			}
-			cur := ed448Fn{name: "ed448." + name}
+			cur := &ed448Fn{name: "ed448." + name, short: short, exported: exported, params: ordered, decl: fd, made: made, pset: params}
 			ast.Inspect(fd.Body, func(nd ast.Node) bool {
 				switch x := nd.(type) {
 				case *ast.FuncLit:
@@ -174,14 +191,6 @@ func ed448FnFacts(dir string) ([]ed448Fn, error) {
 				case *ast.ReturnStmt:
 					for _, r := range x.Results {
 						cur.returns = append(cur.returns, ed448Classify(r, made, params))
-					}
-				case *ast.CallExpr:
-					if ed448Helpers[calleeName(x.Fun)] {
-						if len(x.Args) == 0 {
-							cur.helperDests = append(cur.helperDests, "none")
-						} else {
-							cur.helperDests = append(cur.helperDests, ed448Classify(x.Args[0], made, params))
-						}
 					}
 				}
 				return true
@@ -202,41 +211,107 @@ func genEd448Facts() ([]byte, error) {
 	if err != nil {
 		return nil, err
 	}
-	if len(ws) == 0 || len(fs) == 0 {
-		return nil, fmt.Errorf("ed448facts: no functions found")
+	if len(ws) == 0 || len(fs) == 0 || len(ws) != len(fs) {
+		return nil, fmt.Errorf("ed448facts: no functions found / inconsistent function lists")
+	}
+	// direct writes: (kind, target) from the write-site strings "<kind> … <target> @file:line"
+	for i, w := range ws {
+		if w.name != fs[i].name {
+			return nil, fmt.Errorf("ed448facts: function order mismatch %s / %s", w.name, fs[i].name)
+		}
+		for _, site := range w.writes {
+			if j := strings.Index(site, " @"); j >= 0 {
+				site = site[:j]
+			}
+			f := strings.Fields(site)
+			fs[i].writes = append(fs[i].writes, [2]string{f[0], f[len(f)-1]})
+		}
+	}
+	// call sites: for every call of a function g of the package, the class of the argument bound to a
+	// WRITTEN parameter of g; passing one's own parameter there is a write through it ("pass"), to a fixed point
+	byShort := map[string][]*ed448Fn{}
+	for _, f := range fs {
+		byShort[f.short] = append(byShort[f.short], f)
+	}
+	written := func(g *ed448Fn, p string) bool {
+		for _, w := range g.writes {
+			if w[1] == p {
+				return true
+			}
+		}
+		return false
+	}
+	var outCalls [][2]string
+	for round := 0; round < 10; round++ {
+		outCalls = nil
+		changed := false
+		for _, f := range fs {
+			f := f
+			ast.Inspect(f.decl.Body, func(nd ast.Node) bool {
+				call, ok := nd.(*ast.CallExpr)
+				if !ok {
+					return true
+				}
+				short := calleeName(call.Fun)
+				if i := strings.LastIndex(short, "."); i >= 0 {
+					short = short[i+1:]
+				}
+				for _, g := range byShort[short] {
+					for i, a := range call.Args {
+						if i >= len(g.params) || !written(g, g.params[i]) {
+							continue
+						}
+						cls := ed448Classify(a, f.made, f.pset)
+						outCalls = append(outCalls, [2]string{f.name, cls})
+						if r := rootIdent(a); r != nil && f.pset[r.Name] && !written(f, r.Name) {
+							f.writes = append(f.writes, [2]string{"pass", r.Name})
+							changed = true
+						}
+					}
+				}
+				return true
+			})
+		}
+		if !changed {
+			break
+		}
 	}
 	var b strings.Builder
 	b.WriteString("/- GENERATED by /verif/translator (ed448facts.go) from ed448/*.go. Do not edit. -/\n")
 	b.WriteString("namespace Gen.Ed448Facts\n\n")
-	table := func(name, doc string, n int, key func(i int) string, val func(i int) []string) {
-		b.WriteString("/-- " + doc + " -/\n")
-		b.WriteString("def " + name + " : List (String × List String) := [\n")
-		for i := 0; i < n; i++ {
-			sep := ","
-			if i == n-1 {
-				sep = ""
-			}
-			b.WriteString("  (" + leanStr(key(i)) + ", " + leanStrList(val(i)) + ")" + sep + "\n")
+	b.WriteString("/-- per function: (name, exported, writes through a parameter / receiver / local alias of one as (kind, target));\n    kinds: assign incdec range-assign address-of copy append clear pass (handed to a writing function of the package) -/\n")
+	b.WriteString("def fnFacts : List (String × Bool × List (String × String)) := [\n")
+	for i, f := range fs {
+		var wsx []string
+		for _, w := range f.writes {
+			wsx = append(wsx, "("+leanStr(w[0])+", "+leanStr(w[1])+")")
 		}
-		b.WriteString("]\n\n")
-	}
-	// the write sites keep only their kind and target (no line numbers: the fact is about structure)
-	strip := func(ws []string) []string {
-		var o []string
-		for _, w := range ws {
-			if i := strings.Index(w, " @"); i >= 0 {
-				w = w[:i]
-			}
-			o = append(o, w)
+		sep := ","
+		if i == len(fs)-1 {
+			sep = ""
 		}
-		return o
+		b.WriteString(fmt.Sprintf("  (%s, %v, [%s])%s\n", leanStr(f.name), f.exported, strings.Join(wsx, ", "), sep))
 	}
-	table("paramWrites", "per function: statements that can write through a parameter / receiver / local alias of one", len(ws),
-		func(i int) string { return ws[i].name }, func(i int) []string { return strip(ws[i].writes) })
-	table("returns", "per function: class of every returned expression (make | const | call | param | local | append-<class> | other)", len(fs),
-		func(i int) string { return fs[i].name }, func(i int) []string { return fs[i].returns })
-	table("helperDests", "per function: class of the output-buffer argument of every call of newKeyFromSeed / sign", len(fs),
-		func(i int) string { return fs[i].name }, func(i int) []string { return fs[i].helperDests })
-	b.WriteString("end Gen.Ed448Facts\n")
+	b.WriteString("]\n\n")
+	b.WriteString("/-- every call site, inside the package, of a function with a written parameter: (caller, class of the argument bound to that parameter) -/\n")
+	b.WriteString("def outCalls : List (String × String) := [\n")
+	for i, oc := range outCalls {
+		sep := ","
+		if i == len(outCalls)-1 {
+			sep = ""
+		}
+		b.WriteString("  (" + leanStr(oc[0]) + ", " + leanStr(oc[1]) + ")" + sep + "\n")
+	}
+	b.WriteString("]\n\n")
+	b.WriteString("/-- per function: class of every returned expression (make | const | call | param | local | append-<class> | other) -/\n")
+	b.WriteString("def returns : List (String × List String) := [\n")
+	for i, f := range fs {
+		sep := ","
+		if i == len(fs)-1 {
+			sep = ""
+		}
+		b.WriteString("  (" + leanStr(f.name) + ", " + leanStrList(f.returns) + ")" + sep + "\n")
+	}
+	b.WriteString("]\n\nend Gen.Ed448Facts\n")
 	return []byte(b.String()), nil
 }
